@@ -14,7 +14,7 @@ sys.path.insert(0, HERE)
 
 def child_env():
     env = dict(os.environ)
-    env["PYTHONPATH"] = "/repo" + os.pathsep + HERE
+    env["PYTHONPATH"] = os.environ.get("VERIF_REPO", "/repo") + os.pathsep + HERE
     env["PYTHONHASHSEED"] = "0"
     env.setdefault("MORE_EXECUTORS_PROMETHEUS", "0")
     return env
@@ -163,7 +163,7 @@ def main():
         sys.stdout.write("@@RESULT@@" + json.dumps(s, default=str) + "\n")
         return
     # parent: fan out
-    sys.path.insert(0, "/repo")
+    sys.path.insert(0, os.environ.get("VERIF_REPO", "/repo"))
     spec = importlib.import_module(a.module)
     n = a.n if a.n is not None else (spec.N_THOROUGH if a.tier == "thorough" else spec.N_QUICK)
     nsh = max(1, min(a.shards, n // 50 or 1))
